@@ -515,9 +515,13 @@ func ruleModeTable(c *Ctx, rule string) {
 		return isFiles || isOS
 	}
 	var collect func(f *ssa.Function, args []wLat, top *ssa.Call, depth int) []site
+	var topWorld *World
 	collect = func(f *ssa.Function, args []wLat, top *ssa.Call, depth int) []site {
 		w := &World{Fn: f}
 		w.Run(args...)
+		if depth == 0 {
+			topWorld = w
+		}
 		var out []site
 		for _, b := range f.Blocks {
 			if !w.Reach[b] {
@@ -616,7 +620,8 @@ func ruleModeTable(c *Ctx, rule string) {
 				if load.top == open.top {
 					before = instrDominates(load.call, open.call)
 				} else {
-					before = instrDominates(load.top, open.top)
+					// in the world of this mode: no feasible path reaches the open without passing the load
+					before = instrDominates(load.top, open.top) || worldDominates(topWorld, load.top, open.top)
 				}
 				if !before {
 					ob.Bad("the file is truncated before its original contents have been loaded into memory")
@@ -1023,6 +1028,7 @@ func ruleWhoWritesFiles(c *Ctx, rule string) {
 
 // ruleSpliceLoop implements C06.R4.
 func ruleSpliceLoop(c *Ctx, rule string) {
+	defer withForwarders()()
 	r := c.R
 	wa := c.Method("files", "Writer", "WriteAt")
 	if wa == nil {
@@ -1226,6 +1232,29 @@ func ruleSpliceLoop(c *Ctx, rule string) {
 			for _, cl := range callsTo(caller, fn) {
 				ncall++
 				if !closedAfter(caller, cl, cl.Call.Args[idx]) {
+					okClose = false
+				}
+			}
+		}
+		if ncall == 0 {
+			okClose = false
+		}
+	} else if idx, suffix := fieldOfParam(fn, wv); idx >= 0 {
+		// the splice helper received a record that holds the writer (o.writer): its caller closes that field of what it passed
+		okClose = true
+		ncall := 0
+		for _, caller := range c.callersIn("engine", fn) {
+			pd := NewPostDom(caller)
+			for _, cl := range callsTo(caller, fn) {
+				ncall++
+				want := exprStr(cl.Call.Args[idx]) + suffix
+				found := false
+				for _, call := range callsTo(caller, wc) {
+					if pd.PostDominates(call.Block(), cl.Block()) && exprStr(call.Call.Args[0]) == want {
+						found = true
+					}
+				}
+				if !found {
 					okClose = false
 				}
 			}
@@ -2185,4 +2214,44 @@ func resolveCaptured(f *ssa.Function, v ssa.Value) ssa.Value {
 		return v
 	}
 	return bound
+}
+
+// worldDominates: in the part of the function that stays feasible in world w, every path from the entry to b passes a.
+func worldDominates(w *World, a, b ssa.Instruction) bool {
+	if w == nil || a == nil || b == nil {
+		return false
+	}
+	if a.Block() == b.Block() {
+		return instrIndex(a) < instrIndex(b)
+	}
+	seen := map[*ssa.BasicBlock]bool{}
+	work := []*ssa.BasicBlock{w.Fn.Blocks[0]}
+	for len(work) > 0 {
+		x := work[len(work)-1]
+		work = work[:len(work)-1]
+		if seen[x] || !w.Reach[x] || x == a.Block() {
+			continue
+		}
+		seen[x] = true
+		if x == b.Block() {
+			return false
+		}
+		for _, s := range x.Succs {
+			if w.Edge[[2]*ssa.BasicBlock{x, s}] {
+				work = append(work, s)
+			}
+		}
+	}
+	return true
+}
+
+// fieldOfParam: when v reads a field (path) of one of fn's parameters, the parameter's index and the path as printed (".writer").
+func fieldOfParam(fn *ssa.Function, v ssa.Value) (int, string) {
+	s := exprStr(v)
+	for i, p := range fn.Params {
+		if strings.HasPrefix(s, p.Name()+".") && !strings.ContainsAny(s[len(p.Name()):], "()[ ") {
+			return i, s[len(p.Name()):]
+		}
+	}
+	return -1, ""
 }
